@@ -1786,8 +1786,9 @@ static int parse_loop_packets(struct scanner_s *scanner, cif_loop_tp *loop, stri
                                     goto packets_end;
                                 }
                                 /* recover by synthesizing unknown values to fill the packet, and saving it */
-                                for (; column_index < column_count; column_index += 1) {
-                                    if ((names[column_index] != NULL)
+                                /* next_name is in step with column_index; dropped names have no string */
+                                for (; column_index < column_count; column_index += 1, next_name = next_name->next) {
+                                    if ((next_name->string != NULL)
                                             && (result = cif_value_init(packet_values[column_index], CIF_UNK_KIND))
                                                     != CIF_OK) {
                                         goto packets_end;
